@@ -278,9 +278,17 @@ def baseline(case, tmp):
     return tab, final, model, snaps
 
 
+def _scratch(case):
+    """Scratch directory for the output files; for cases that ask for it, on ANOTHER file system than the system temp
+    directory (a RAM disk, a scratch volume): renames from $TMPDIR would cross a device there."""
+    if case.get("other_fs") and os.path.isdir("/dev/shm") and os.access("/dev/shm", os.W_OK) and os.stat("/dev/shm").st_dev != os.stat(tempfile.gettempdir()).st_dev:
+        return tempfile.mkdtemp(prefix="nssverif_c17_", dir="/dev/shm"), True
+    return tempfile.mkdtemp(prefix="nssverif_c17_"), False
+
+
 def body_raise(case):
-    tmp = tempfile.mkdtemp(prefix="nssverif_c17_")
-    labels = {case["mode"]}
+    tmp, other_fs = _scratch(case)
+    labels = {case["mode"]} | ({"output_on_another_filesystem"} if other_fs else set())
     try:
         tab, final, model, snaps = baseline(case, tmp)
         n = len(model)
@@ -421,6 +429,7 @@ def conf_case(kinds):
             "radio": st.sampled_from([True, False, True]),
             "det": st.sampled_from([33.0, 525.0, 525.0, 2000.0, 1.0, 5.0]),
             "exc": st.sampled_from(["Exception", "KeyboardInterrupt", "KeyboardInterrupt", "SystemExit"]),
+            "other_fs": st.sampled_from([False, False, True]),
             "lat": st.sampled_from([0.3, 0.0]),
             "lon": st.sampled_from([1.1, 0.0]),
             "ra": st.floats(0.0, 2 * math.pi),
@@ -447,6 +456,7 @@ def _exhaustive_defaults(tier):
     yield dict(_default_case("Diffuse"), ext="", optical=False, kinds=["write"])
     yield dict(_default_case("Diffuse"), ext=".ecsv", optical=False, kinds=["write"])
     yield dict(_default_case("Target"), aim=None, ra=0.0, dec=1.55, lat=1.55)
+    yield dict(_default_case("Diffuse"), other_fs=True, kinds=["write"])
     # a mountain-top instrument and bright showers: many decays above the instrument, many events with signal
     yield dict(_default_case("Diffuse"), det=1.0, n=250, spectrum={"id": "monospectrum", "log_nu_energy": 10.0}, radio=False, kinds=[])
     yield dict(_default_case("Diffuse"), det=5.0, n=250, spectrum={"id": "monospectrum", "log_nu_energy": 10.5}, kinds=[])
